@@ -2,6 +2,7 @@ import Driver.Common
 import Driver.Val
 import TxdbusModel.Sig.Split
 import TxdbusModel.Wire.Infer
+import TxdbusModel.Wire.Code
 /-!
 Driver for property C19.  One operation per line:
 
@@ -11,6 +12,8 @@ Driver for property C19.  One operation per line:
   first <strhex>   ->  `ok <strhex piece> <strhex rest>` | `err <TypeError|RuntimeError|StopIteration>`   next(genCompleteTypes(sig));
                        StopIteration only for the empty signature (exhausted generator), inside the body PEP 479 makes it RuntimeError
   infer <value>    ->  `ok <strhex>` | `err MarshallingError`     sigFromPy(value); value in the syntax of Driver/Val.lean
+  vrt <le> <off> <value> -> `ok <n> <byteshex> <value>` | `err`   marshal('v', [value], off, le) of Wire/Code.lean (bytes it
+                       produces, count it reports) and unmarshal('v', 0xaa*off + bytes, off, le) of those bytes (decoded value)
   nargs <strhex>   ->  `ok <n>` | `err <TypeError|RuntimeError>` the argument count interface.py derives from a signature
 -/
 open Txdbus Driver
@@ -46,6 +49,17 @@ def step (line : String) : String :=
       match countCompleteTypes s with
       | .ok n => "ok " ++ toString n
       | .error e => "err " ++ splitErrName e
+  | "vrt" :: le :: off :: toks =>
+    match parseVal toks, off.toNat? with
+    | some (v, []), some off =>
+      let lendian := le == "1"
+      match Code.marshal 64 ['v'] (.list [v]) off lendian none with
+      | .error _ => "err"
+      | .ok (n, bs, _) =>
+        match Code.unmarshal 64 ['v'] (List.replicate off 170 ++ bs) off lendian none with
+        | .ok (n2, [w]) => "ok " ++ toString n ++ " " ++ bytesToHex bs ++ " " ++ toString n2 ++ " " ++ printVal w
+        | _ => "ok " ++ toString n ++ " " ++ bytesToHex bs ++ " undecodable"
+    | _, _ => "bad-input"
   | "infer" :: toks =>
     match parseVal toks with
     | some (v, []) =>
